@@ -23,7 +23,7 @@ RULE = (
     "Hypothesis-generated cases per sketch class (5 classes): random configuration (width/depth 1 allowed; log max_count in {300,1000,70000,1e6,"
     "2^32-1,2^40}, num_reserved in {0,1,3,15,100,1023}; heavy-hitter max_key_len 1..16, phi None/0.01/0.5/1.0/one ulp or 2e-6 relative below the default 1/width; HyperLogLog p 7..16 with seeds from "
     "{0,1,2^32-1,2^32,2^53+1,2^63,2^63+12345,2^64-1,any}), a random history (adds with multiplicities, list/dict/ngram updates, merges of other sketches with their own short histories, n_records set to a "
-    "generated value), then chains of up to 3 rounds: save (to a fresh path, over a file holding another sketch of the same shape and totals, or over a file that is not a sketch) -> load (class loader, or countmin.load for count-min; shared_memory False/True) -> "
+    "generated value), then chains of up to 3 rounds: save (to a fresh path - ordinary name, 254-byte base name, or a symbolic link -, over a file holding another sketch of the same shape and totals, or over a file that is not a sketch) -> load (class loader, or countmin.load for count-min; shared_memory False/True) -> "
     "compare -> a fresh second copy merges the original -> common continuation on original and copy (same planted draws for log types) -> "
     "compare -> continue from the copy. Oracle: same class; equal public parameters (width, depth, max_count, num_reserved, base, p, seed, phi, "
     "max_key_len); equal tables, n_added(), n_records(); equal queries for every universe key (heavy hitters: query(inf,t) for t in {None,0,1} and "
@@ -99,7 +99,9 @@ def cases(draw):
     hist = [[step() for _ in range(draw(st.integers(0, 6)))] for _ in range(rounds + 1)]
     # "pre": what already sits at the target path when save() is called (a checkpoint file is usually overwritten):
     # nothing, a sketch of the same shape with the same totals but other keys ("twin"), or bytes that are not a sketch
-    loads = [{"via": draw(st.sampled_from(["class", "module"])), "shm": draw(st.sampled_from([False, False, True])), "pre": draw(st.sampled_from([None, None, "twin", "twin", "garbage"]))} for _ in range(rounds)]
+    loads = [{"via": draw(st.sampled_from(["class", "module"])), "shm": draw(st.sampled_from([False, False, True])), "pre": draw(st.sampled_from([None, None, "twin", "twin", "garbage"])),
+              # the target path: an ordinary name, a base name of 254 bytes (NAME_MAX is 255), or a symbolic link to the file
+              "name": draw(st.sampled_from(["plain", "plain", "plain", "long", "symlink"]))} for _ in range(rounds)]
     return {"cfg": cfg, "U": U, "hist": hist, "loads": loads, "n_records": draw(st.sampled_from([0, 0, 1, 7, 2**40]))}
 
 
@@ -213,6 +215,10 @@ def run_case(case):
             orig.n_added_records[1] = np.uint64(case["n_records"])
         for r, ld in enumerate(case["loads"]):
             path = os.path.join(tmp, f"r{r}.npz")
+            if ld.get("name") == "long":
+                path = os.path.join(tmp, f"r{r}_" + "n" * (254 - len(f"r{r}_") - 4) + ".npz")
+            elif ld.get("name") == "symlink":
+                os.symlink(os.path.join(tmp, f"target{r}.npz"), path)
             if ld.get("pre") == "twin":
                 twin = sut(make_sketch, cfg)
                 perm = {k: U[-1 - j] for j, k in enumerate(U)}
@@ -273,6 +279,10 @@ def _shard(arg):
             cl.append("saved_over_a_lookalike_sketch_file")
         if any(l.get("pre") == "garbage" for l in case["loads"]):
             cl.append("saved_over_a_file_that_is_not_a_sketch")
+        if any(l.get("name") == "long" for l in case["loads"]):
+            cl.append("file_name_of_254_bytes")
+        if any(l.get("name") == "symlink" for l in case["loads"]):
+            cl.append("saved_through_a_symbolic_link")
         if any(s_["op"] == "merge" for h in case["hist"] for s_ in h):
             cl.append("merge_in_history")
         if case["cfg"]["kind"] == "hh" and case["cfg"]["phi"] not in (None, 0.01, 0.5, 1.0):
